@@ -477,8 +477,19 @@ func generateProtectedHeaders(req *signature.SignRequest, protected cose.Protect
 
 	// extended attributes
 	for _, elm := range req.ExtendedSignedAttributes {
+		label, ok := normalizedLabel(elm.Key)
+		if !ok {
+			// also keeps unhashable keys away from the map accesses below
+			return &signature.InvalidSignRequestError{Msg: fmt.Sprintf("%v: COSE envelope format only supports extended attribute keys of integer or string type", elm.Key)}
+		}
 		if _, ok := protected[elm.Key]; ok {
 			return &signature.InvalidSignRequestError{Msg: fmt.Sprintf("%q already exists in the protected header", elm.Key)}
+		}
+		if isSystemHeader(label) {
+			// a system header that this request does not carry (yet), e.g.
+			// the content type, crit or the expiry of a request without
+			// expiry: it would be overwritten or read back as that header
+			return &signature.InvalidSignRequestError{Msg: fmt.Sprintf("%q is reserved by the signature specification and cannot be used as an extended attribute key", elm.Key)}
 		}
 		if elm.Critical {
 			crit = append(crit, elm.Key)
@@ -494,6 +505,49 @@ func generateProtectedHeaders(req *signature.SignRequest, protected cose.Protect
 
 // generateUnprotectedHeaders creates Unprotected Headers of the COSE envelope
 // during Sign process.
+// normalizedLabel returns the header label under which the COSE library
+// encodes key (every integer kind becomes int64), or false if key cannot be
+// a COSE header label.
+func normalizedLabel(key any) (any, bool) {
+	switch k := key.(type) {
+	case string:
+		return k, true
+	case int64:
+		return k, true
+	case int:
+		return int64(k), true
+	case int8:
+		return int64(k), true
+	case int16:
+		return int64(k), true
+	case int32:
+		return int64(k), true
+	case uint:
+		return int64(k), true
+	case uint8:
+		return int64(k), true
+	case uint16:
+		return int64(k), true
+	case uint32:
+		return int64(k), true
+	case uint64:
+		return int64(k), true
+	}
+	return nil, false
+}
+
+// isSystemHeader reports whether the normalized label is a header defined by
+// COSE (alg, crit, content type) or by the signature specification.
+func isSystemHeader(label any) bool {
+	switch l := label.(type) {
+	case int64:
+		return l == cose.HeaderLabelAlgorithm || l == cose.HeaderLabelCritical || l == cose.HeaderLabelContentType
+	case string:
+		return l == headerLabelExpiry || l == headerLabelSigningScheme || l == headerLabelSigningTime || l == headerLabelAuthenticSigningTime
+	}
+	return false
+}
+
 func generateUnprotectedHeaders(req *signature.SignRequest, signer signer, unprotected cose.UnprotectedHeader) {
 	// signing agent
 	if req.SigningAgent != "" {
